@@ -140,6 +140,21 @@ type FixBigAll struct {
 	P       [129]uint64
 	Q       BigS
 }
+// pointer-shaped structs (one pointer or map): held directly in a reflect.Value when encoded by value
+type FixPtrShaped struct {
+	C *struct{ A int } `codec:"c,omitempty"`
+}
+type FixMapShaped struct {
+	M map[string]string `json:"m,omitempty"`
+}
+type FixShapedOuter struct {
+	E FixPtrShaped
+}
+type FixShapedIn struct {
+	P FixPtrShaped `codec:"p,omitempty"`
+	Q FixMapShaped `codec:"q,omitempty"`
+	R [1]*int      `codec:"r,omitempty"`
+}
 type FixEsc struct {
 	A int `codec:"a<b"`
 	B int `codec:"q\"x"`
@@ -167,6 +182,12 @@ var fixedTypes = []reflect.Type{
 	reflect.TypeOf(FixJSONFallback{}), reflect.TypeOf(FixEsc{}), reflect.TypeOf(FixEscFirst{}), reflect.TypeOf(TArrIn{}),
 	reflect.TypeOf(inner1{}), reflect.TypeOf(Inner2{}), reflect.TypeOf(struct{}{}),
 	reflect.TypeOf(FixBig{}), reflect.TypeOf(FixBigArr{}), reflect.TypeOf(FixBigAll{}), reflect.TypeOf(BigS{}),
+	reflect.TypeOf(FixPtrShaped{}), reflect.TypeOf(FixMapShaped{}), reflect.TypeOf(FixShapedOuter{}), reflect.TypeOf(FixShapedIn{}),
+}
+
+var shapedTypes = []reflect.Type{
+	reflect.TypeOf(FixPtrShaped{}), reflect.TypeOf(FixMapShaped{}), reflect.TypeOf(FixShapedOuter{}), reflect.TypeOf(FixShapedIn{}),
+	reflect.TypeOf([1]*int{}), reflect.TypeOf([1]map[string]int{}), reflect.TypeOf(struct{ P *int }{}),
 }
 
 var bigTypes = []reflect.Type{
@@ -562,13 +583,19 @@ func quirkClass(v reflect.Value) string {
 			return "empty-string-nonnil-data"
 		}
 	case reflect.Struct:
-		if docZero(v) && !v.Type().Comparable() {
+		// codec.safe: a struct that is not comparable is never empty (whatever it holds);
+		// default build: memory compare, so what matters is a nested shape such as -0.0
+		znc := docZero(v) && !v.Type().Comparable()
+		if znc && buildName == "safe" {
 			return "zero-noncomparable-struct"
 		}
 		for i := 0; i < v.NumField(); i++ {
 			if c := quirkClass(v.Field(i)); c != "" {
 				return "struct-holding-" + c
 			}
+		}
+		if znc {
+			return "zero-noncomparable-struct"
 		}
 	case reflect.Array:
 		for i := 0; i < v.Len(); i++ {
